@@ -189,7 +189,7 @@ def command_forms(tree):
          ["hash", {"file": "a.txt", "h": "md5"}], ["hash", {"file": "d/c.txt", "h": "c4"}],
          ["flatten", {"root": "", "dest": "{dest}"}], ["flatten", {"root": "", "dest": "{dest}/sub"}],
          ["flatten", {"root": "d", "dest": "{dest}"}],
-         c("", ["xxh64"]), c("", ["md5", "c4"], n=True), c("", ["xxh64"], dr=True), c("", ["xxh64"], i=["*.txt"]),
+         c("", ["xxh64"]), c("", ["xxh64"], v=True), c("", ["xxh64"], sf=["a.txt"], v=True), c("", ["md5", "c4"], n=True), c("", ["xxh64"], dr=True), c("", ["xxh64"], i=["*.txt"]),
          c("", ["xxh64"], sf=["a.txt"]), c("", ["xxh64"], sf=["d/c.txt"]), c("", ["xxh64"], sf=["d"]), c("d", ["sha1"]),
          c("d/e", ["xxh3"]), c("emp", ["xxh64"]), c("", ["xxh64"], extra=["--author_name", "X", "--comment", "c"])]
     pl = [["verify", {"root": "", "pl": "{pl}"}], ["verify", {"root": "", "pl": "{pl}", "sf": "a.txt"}]]
